@@ -569,6 +569,64 @@ def _val(x):
     return Fraction(-m if s else m) * Fraction(2) ** ex
 
 
+def c16_direction_search(ctx):
+    """The direction clause on the real code: converting a unit vector to another precision (cast, then
+    re-normalise) moves each component by at most two ulps of the coarser of the two precisions."""
+    import pyfloat
+    rng = random.Random(ctx.seed + 161)
+    by_id = ctx.by_id
+    out = []
+    for cls, n, mk in (('Direction', 3, 'Direction::ctor(num,num,num)'), ('PlanarDirection', 2, 'PlanarDirection::ctor(num,num)')):
+        make = by_id.get(mk)
+        if make is None:
+            continue
+        for src in (32, 64, 80):
+            stage1 = []
+            for _ in range(12):
+                vals = [co.random_value(rng, src, 'moderate') for _ in range(n)]
+                vals = [(s_, mm or 1, ee) for (s_, mm, ee) in vals]
+                stage1.append((make['index'], src, [co.hex_of(*x) for x in vals], []))
+            res1, _, _ = ctx.run_native(stage1)
+            for dst in (32, 64, 80):
+                if dst == src:
+                    continue
+                for kind, label in (('ctor', 'r'), ('operator=', 'self')):
+                    e = by_id.get('%s::%s(%s<Othernum>)[U=%d]' % (cls, kind, cls, src))
+                    if e is None or str(dst) not in e['instances'][0]['fmts']:
+                        continue
+                    stage2, meta = [], []
+                    for r in res1:
+                        if not r or r.get('error'):
+                            continue
+                        u = [o['t'] for o in r['outs'] if o['l'].rsplit(':', 1)[1].startswith('num')]
+                        if len(u) != n or any('nan' in x or 'inf' in x for x in u):
+                            continue
+                        args = u if kind == 'ctor' else ['0x0p+0'] * n + u
+                        stage2.append((e['index'], dst, args, []))
+                        meta.append(u)
+                    res2, _, _ = ctx.run_native(stage2)
+                    tol = 2 * Fraction(1, 2 ** (min(co.FMT[src][0], co.FMT[dst][0]) - 1))
+                    for u, r in zip(meta, res2):
+                        if not r or r.get('error'):
+                            continue
+                        got = [c for (l, c) in num_outs(r) if l.startswith(label)]
+                        if len(got) != n or any(c in ('nan', 'inf', '-inf') for c in got):
+                            continue
+                        for i in range(n):
+                            want = pyfloat.round_to(sexpr.hex_to_fraction(u[i]), dst)
+                            if isinstance(want, str):
+                                continue
+                            if abs(co.frac_of_canon(got[i]) - want) > tol:
+                                out.append({'kind': 'c16-direction', 'entry': e['id'], 'fmt': dst, 'inputs': u, 'component': i,
+                                            'what': '%s at %d bits of the unit vector %s: component %d is %.20g, the cast of the '
+                                                    'source component is %.20g: more than two ulps apart' % (
+                                                        e['id'], dst, u, i, float(co.frac_of_canon(got[i])), float(want))})
+                                break
+                        if len(out) >= 3:
+                            return out
+    return out
+
+
 def c16_search(ctx, failing, corr, broken):
     import pyfloat
     targets, rng = _targets(ctx, failing, corr, broken,
@@ -640,6 +698,7 @@ def c16_search(ctx, failing, corr, broken):
                     break
             if len(out) >= 5:
                 break
+    out += c16_direction_search(ctx)
     return out
 
 
@@ -2804,6 +2863,7 @@ SPECS = {
         'checkers': [('C16cast', 'quantityEntries')],
         'correspond': quantity_corr(lambda e: e['meta']['kind'] in ('cast-ctor', 'cast-assign'), 16, 4, 60),
         'search': c16_search,
+        'always_search': True,
         'assumptions': ['Fl.cast is the exact value rounded once to the target format (nearest-even); validated '
                         'bit for bit against cvtss2sd/cvtsd2ss/fld/fstp by the correspondence',
                         'direction clause read as: converting constructor = cast then normalise; converting '
